@@ -148,6 +148,26 @@ pub fn run(ctx: &Ctx, rep: &mut Reporter) -> Json {
                     panic_violation(rep, case_idx, "panic", &p, Json::obj());
                 }
             }
+            // a mapping appended to itself (a CI step that ran `cat mapping.txt >> out` twice),
+            // three times, and two halves that differ in one byte: each is its own byte string
+            {
+                let r = guarded(|| {
+                    let once = check_one(&base, "single copy", rep, case_idx, &mut log);
+                    let mut twice = base.clone();
+                    twice.extend_from_slice(&base);
+                    let u2 = check_one(&twice, "file appended to itself", rep, case_idx, &mut log);
+                    let mut thrice = twice.clone();
+                    thrice.extend_from_slice(&base);
+                    let u3 = check_one(&thrice, "three copies", rep, case_idx, &mut log);
+                    rep.count("inputs_appended_to_themselves", 1);
+                    if !base.is_empty() && (once == u2 || u2 == u3) {
+                        rep.violation(case_idx, "uuid-oracle", "a file and the same file appended to itself have the same UUID", Json::obj());
+                    }
+                });
+                if let Err(p) = r {
+                    panic_violation(rep, case_idx, "panic", &p, Json::obj());
+                }
+            }
             // sub-mappings cut exactly at the halves of CRLF terminators
             {
                 let crlf = to_crlf(&base);
